@@ -498,12 +498,27 @@ def memo_collocate(orig):
     return collocate
 
 
+# What the worker processes share besides the queues is the file system of
+# the output fileset: inside these functions of typhon every source line of a
+# worker is a scheduling point (a directory created after an existence test,
+# a temporary named after the target ... are check-then-act races between
+# two workers that no queue operation separates).
+FINE_FUNCTIONS = {("fileset.py", "write"), ("fileset.py", "make_dirs"),
+                  ("utils.py", "compress"), ("utils.py", "compress_as")}
+
+
+def fine_code(code):
+    return (os.path.basename(code.co_filename), code.co_name) \
+        in FINE_FUNCTIONS and "typhon" in code.co_filename
+
+
 def run_scheduled(ctx, world, cfg, processes, memo, horizon=3000):
     """One execution under the controlled scheduler."""
     global SCHED
     from typhon.collocations import collocator as cmod
     from typhon.files import fileset as fsmod
-    s = sched.Scheduler(ctx, horizon=horizon)
+    s = sched.Scheduler(ctx, horizon=horizon,
+                        fine=fine_code if cfg.get("fine") else None)
     saved = (cmod.Process, cmod.Queue, cmod.gc, fsmod.ThreadPoolExecutor,
              fsmod.ProcessPoolExecutor, fsmod.gc, cmod.Collocator.collocate)
     cmod.Process, cmod.Queue, cmod.gc = s.process_class(), s.queue_class(), \
@@ -584,9 +599,11 @@ LAYOUTS = {
 }
 
 
-def base_cfg(layout, bundle=None, output="memory", skip=False):
+def base_cfg(layout, bundle=None, output="memory", skip=False, fine=False):
+    """fine: the workers' lines inside FINE_FUNCTIONS are scheduling points
+    too (the key is only present when set, recorded cases stay valid)."""
     return dict(layout=layout, mi=LAYOUTS[layout]["mi"], bundle=bundle,
-                output=output, skip=skip,
+                output=output, skip=skip, **({"fine": True} if fine else {}),
                 start=T0 - dt.timedelta(minutes=1),
                 end=T0 + 9 * SLOT)
 
@@ -599,6 +616,11 @@ def schedule_configs(tier):
         for output in ("memory", "fileset"):
             out.append((base_cfg("2x1", bundle, output), 2, deep, None))
             out.append((base_cfg("2x2", bundle, output), 2, wide, None))
+    # two workers writing into one new output directory, the write path
+    # interleaved line by line (one deviation: the line-level points multiply
+    # with everything else)
+    out.append((base_cfg("2x1", None, "fileset", fine=True), 2, 1, None))
+    out.append((base_cfg("2x2", "primary", "fileset", fine=True), 2, 1, None))
     out.append((base_cfg("2x1far"), 2, deep, None))
     out.append((base_cfg("2x2none"), 2, wide, None))
     out.append((base_cfg("2x2none", "primary", "fileset"), 2, wide, None))
